@@ -504,6 +504,7 @@ def run_unit(unit, tier='quick'):
     """explore + discharge one unit; returns a JSON-able dict"""
     t0 = time.time()
     timeout_ms = unit.opts.get('timeout_ms', 60000 if tier == 'quick' else 300000)
+    budget_s = unit.opts.get('budget_s', 600 if tier == 'quick' else 3600)
     ctx = Ctx(unit)
     res = dict(uid=unit.uid, prop=unit.prop, name=unit.name, obligations={}, paths=0, status='ok',
                notes=[], axioms=[], effects=[], samples=[], covers=[], solver_s=0.0, explore_s=0.0)
@@ -615,6 +616,12 @@ def run_unit(unit, tier='quick'):
                 continue
             if kind == 'engine':
                 o['undecided'] += 1; res['status'] = 'engine-error'
+                continue
+            if time.time() - t0 > budget_s:
+                o['undecided'] += 1
+                o['detail'].append('unit time budget exhausted')
+                if 'unit time budget exhausted' not in res['notes']:
+                    res['notes'].append('unit time budget exhausted')
                 continue
             hy = hyps
             if isinstance(name, _Marked) and isinstance(name.nassume, tuple):
